@@ -21,7 +21,7 @@ Proof. destruct l; simpl; auto. Qed.
 
 Theorem C02_handler_eof_after_all pol ls s h k R1 R2 :
   Sys.lrun pol Sys.init ls = Some s -> fault_free ls = true ->
-  (forall e, In (EvWrite e) (Client.log (cl s)) -> erst e = false) ->
+  (forall e, In (EvWrite e) (Client.log (cl s)) -> eid e = fid (h_req k) -> erst e = false) ->
   nth_error (hs (sv s)) h = Some k -> h_unary k = false ->
   recv_results h (Server.log (sv s)) = R1 ++ ORecvEof :: R2 ->
   exists F1 W2, R1 = map recv_res F1 /\
@@ -35,7 +35,7 @@ Proof.
   assert (Hin : In (f_env f) (by_id (fid (h_req k)) (cwrites (Client.log (cl s))))).
   { apply in_tl. rewrite P. apply in_or_app. right. left. reflexivity. }
   apply in_by_id in Hin. destruct Hin as (Hw & Hid). apply in_cwrites in Hw.
-  pose proof (WS_reach _ _ (proj_c_run _ _ _ _ H) _ Hw) as Sh. pose proof (Hnr _ Hw) as Hr.
+  pose proof (WS_reach _ _ (proj_c_run _ _ _ _ H) _ Hw) as Sh. pose proof (Hnr _ Hw Hid) as Hr.
   unfold recv_res in Mf. rewrite <- Hid.
   destruct Sh as [(b & Sh) | [Sh | [Sh | Sh]]]; rewrite Sh in Mf, Hr; simpl in Mf, Hr; try discriminate; [|exact Sh].
   destruct (b <? 0); discriminate.
@@ -43,7 +43,7 @@ Qed.
 
 Theorem C02_handler_eof_complete pol ls s h k :
   Sys.lrun pol Sys.init ls = Some s -> fault_free ls = true ->
-  (forall e, In (EvWrite e) (Client.log (cl s)) -> erst e = false) ->
+  (forall e, In (EvWrite e) (Client.log (cl s)) -> eid e = fid (h_req k) -> erst e = false) ->
   Sys.quiescent s = true -> Server.inbox (sv s) = [] -> Client.inbox (cl s) = [] ->
   nth_error (hs (sv s)) h = Some k -> h_unary k = false -> h_pc k = HInRecv ->
   map f_env (takes h (Server.log (sv s))) = stream_writes (fid (h_req k)) (cl s) /\
@@ -52,8 +52,7 @@ Proof.
   intros H Hff Hnr Q Hi1 Hi2 Hn Hu Hp.
   pose proof (proj_s_run _ _ _ _ H) as Hs.
   split; [|apply (RR_reach _ _ _ Hs)].
-  pose proof (sys_good _ _ _ H Hnr) as G.
-  pose proof (PI_reach _ _ _ Hs (proj_s_lbl_ok _ _ _ Hff) G h k Hn Hu) as (Hce & Hd & T & HT0 & Hb & _).
+  pose proof (stream_PIh _ _ _ _ _ H Hff Hnr Hn Hu) as (Hce & Hd & T & HT0 & Hb & _).
   assert (Hc : h_cancel k = false) by (rewrite Hce; unfold pc_end; rewrite Hp; reflexivity).
   specialize (Hb Hc).
   unfold Sys.quiescent in Q. repeat (apply andb_prop in Q; destruct Q as [Q ?]).
@@ -78,7 +77,7 @@ Qed.
 
 Corollary C02_handler_eof_delivered pol ls s h k :
   Sys.lrun pol Sys.init ls = Some s -> fault_free ls = true ->
-  (forall e, In (EvWrite e) (Client.log (cl s)) -> erst e = false) ->
+  (forall e, In (EvWrite e) (Client.log (cl s)) -> eid e = fid (h_req k) -> erst e = false) ->
   Sys.quiescent s = true -> Server.inbox (sv s) = [] -> Client.inbox (cl s) = [] ->
   nth_error (hs (sv s)) h = Some k -> h_unary k = false -> h_pc k = HInRecv ->
   In (close_env (fid (h_req k))) (stream_writes (fid (h_req k)) (cl s)) ->
